@@ -383,7 +383,8 @@ Proof.
   intros Fc Fq Hinv Hcn Hsrc H o tag Ho Hc.
   destruct d as [|mt|p]; simpl in H.
   - inversion H; subst. destruct Ho.
-  - destruct (close_connection cfg st (cn_id cn) ARES_EBADRESP) as [st1 o1] eqn:Ec.
+  - destruct (cf_udp_garbage_drop cfg && negb (cn_tcp cn)); [inversion H; subst; destruct Ho|].
+    destruct (close_connection cfg st (cn_id cn) ARES_EBADRESP) as [st1 o1] eqn:Ec.
     inversion H; subst. exfalso.
     destruct Ho as [<-|[<-|Ho]].
     + eapply nodata_fail; eauto.
@@ -657,7 +658,8 @@ Lemma process_answer_inv cfg st cn sv s u d st1 outs :
 Proof.
   intros I Hsv H. destruct d as [|mt|p]; simpl in H.
   - inversion H; subst. exact I.
-  - destruct (close_connection cfg st (cn_id cn) ARES_EBADRESP) as [sta oa] eqn:Ec.
+  - destruct (cf_udp_garbage_drop cfg && negb (cn_tcp cn)); [inversion H; subst; exact I|].
+    destruct (close_connection cfg st (cn_id cn) ARES_EBADRESP) as [sta oa] eqn:Ec.
     inversion H; subst. eapply close_connection_inv; eauto.
   - destruct (cf_fix_qr cfg && negb (p_qr p)); [inversion H; subst; exact I|].
     destruct (find_query st (p_id p)) as [q|] eqn:Eq; [|inversion H; subst; exact I].
@@ -840,7 +842,8 @@ Lemma process_answer_cache cfg st cn sv s u d st1 outs :
 Proof.
   intros H. destruct d as [|mt|p]; simpl in H.
   - inversion H; subst. auto.
-  - destruct (close_connection cfg st (cn_id cn) ARES_EBADRESP) as [sta oa] eqn:Ec.
+  - destruct (cf_udp_garbage_drop cfg && negb (cn_tcp cn)); [inversion H; subst; auto|].
+    destruct (close_connection cfg st (cn_id cn) ARES_EBADRESP) as [sta oa] eqn:Ec.
     inversion H; subst. destruct (close_connection_frame _ _ _ _ _ _ Ec) as [T [A _]].
     rewrite T. auto.
   - destruct (cf_fix_qr cfg && negb (p_qr p)); [inversion H; subst; auto|].
@@ -1125,7 +1128,8 @@ Lemma process_answer_defined cfg st cn sv s u d :
   inv st -> In sv (ch_servers st) -> exists r, process_answer cfg st cn sv s u d = Ok r.
 Proof.
   intros I Hsv. destruct d as [|mt|p]; simpl; [eauto| |].
-  - destruct (close_connection cfg st (cn_id cn) ARES_EBADRESP). eauto.
+  - destruct (cf_udp_garbage_drop cfg && negb (cn_tcp cn)); [eauto|].
+    destruct (close_connection cfg st (cn_id cn) ARES_EBADRESP). eauto.
   - destruct (cf_fix_qr cfg && negb (p_qr p)); [eauto|].
     destruct (find_query st (p_id p)) as [q|] eqn:Eq; [|eauto].
     destruct (find_query_some _ _ _ Eq) as [Hq _].
@@ -1238,6 +1242,7 @@ Proof.
   destruct (find_server st (cn_server cn)) as [sv|]; [|discriminate].
   destruct (negb (cn_tcp cn) && negb (src =? sv_addr sv)). { intros H. inversion H. constructor. }
   rewrite andb_false_r. simpl.
+  destruct (cf_udp_garbage_drop cfg && negb (cn_tcp cn)). { intros H. inversion H. constructor. }
   destruct (close_connection cfg st (cn_id cn) ARES_EBADRESP) as [sta oa] eqn:Ecl. simpl.
   intros H. inversion H; subst.
   constructor; [apply nodata_fail|]. constructor; [apply nodata_connerr|].
@@ -1322,7 +1327,8 @@ Definition w_echo : list event :=
 
 Definition w_empty : list event := [EOpenConn 10 0 false; ERead 10 100 1000 0 DEmpty].
 
-Definition w_cfg (fc fq fz : bool) : config := mkCfg false false false false 4 true 3600 fc fq fz.
+Definition w_cfg (fc fq fz : bool) : config := mkCfg false false false false 4 true 3600 fc fq fz false.
+Definition w_cfg_drop : config := mkCfg false false false false 4 true 3600 true true true true.
 
 (* what the last event of a run emitted, and the state it was applied to *)
 Definition last_step (cfg : config) (evs : list event) : option (chan * event * list output) :=
@@ -1474,7 +1480,8 @@ Theorem process_answer_only_unassigns cfg st cn sv s u d st1 outs :
 Proof.
   intros H. destruct d as [|mt|p]; simpl in H.
   - inversion H; subst. apply only_unassigns_refl.
-  - unfold close_connection in H.
+  - destruct (cf_udp_garbage_drop cfg && negb (cn_tcp cn)); [inversion H; subst; apply only_unassigns_refl|].
+    unfold close_connection in H.
     destruct (requeue_all cfg st _ ARES_EBADRESP) as [sta oa] eqn:Ea. inversion H; subst.
     eapply only_unassigns_trans; [eapply requeue_all_only_unassigns; eauto|].
     now apply only_unassigns_same_queries.
@@ -1580,4 +1587,27 @@ Lemma malformed_not_inert_stmt :
     run_trace (w_cfg true true true) (init_chan w_servers) w_malformed = Ok (tr, st) /\
     map (fun x => snd x) (skipn 3 tr) = [[OServerFail 0 9; OConnError 10]] /\
     map q_try (ch_queries st) = [1] /\ map q_conn (ch_queries st) = [None] /\ ch_conns st = [].
+Proof. eexists. eexists. vm_compute. repeat split. Qed.
+
+(* with fixes/C05-udp-garbage-drop.patch the exception disappears on UDP: a datagram that is
+   empty or does not parse changes nothing, wherever it comes from *)
+Theorem udp_garbage_inert cfg st c src s u d cn sv :
+  cf_udp_garbage_drop cfg = true -> cf_fix_zerolen cfg = true ->
+  find_conn st c = Some cn -> find_server st (cn_server cn) = Some sv -> cn_tcp cn = false ->
+  (d = DEmpty \/ exists t, d = DMalformed t) ->
+  exists st1, step cfg st (ERead c src s u d) = Ok (st1, []) /\ same_but_cookies st1 st.
+Proof.
+  intros Fd Fz Ec Es Et Hd. simpl. rewrite Ec, Es, Et, Fz. simpl.
+  destruct (negb (src =? sv_addr sv)).
+  { eexists. split; [reflexivity|apply same_but_cookies_refl]. }
+  destruct Hd as [->|[t ->]]; simpl.
+  - eexists. split; [reflexivity|]. repeat split.
+  - rewrite Fd, Et. simpl. eexists. split; [reflexivity|]. repeat split.
+Qed.
+
+Lemma malformed_inert_with_drop_stmt :
+  exists tr st,
+    run_trace w_cfg_drop (init_chan w_servers) w_malformed = Ok (tr, st) /\
+    map (fun x => snd x) (skipn 3 tr) = [[]] /\
+    map q_try (ch_queries st) = [0] /\ map q_conn (ch_queries st) = [Some 10].
 Proof. eexists. eexists. vm_compute. repeat split. Qed.
